@@ -182,6 +182,13 @@ class World(object):
                 self._add(new)
                 touched = len(self.live) - 1
                 self.parsed += 1
+            elif name == 'parse_garbage':
+                # a failing parse through the shared reader must leave no
+                # state behind that a later parse could pick up
+                try:
+                    self.shared_reader.parse(io.BytesIO(op['data']))
+                except Exception:
+                    pass
             elif name == 'stats':
                 i, t = self._tree(op['t'])
 
@@ -446,6 +453,15 @@ def machine(st, target):
               shared=hs.booleans())
         def parse_foreign(self, doc, shared):
             self.step({'op': 'parse_foreign', 'doc': doc, 'shared': shared})
+
+        @rule(data=hs.sampled_from([
+            b'#diffx: version=1.0\n#.change:\n#..file:\n#...meta: length=5\n{"a"',
+            b'#diffx: encoding=utf-16, version=1.0\n#.preamble: length=3\nabc',
+            b'#diffx: version=9\n', b'garbage', b'',
+            b'#diffx: version=1.0\n#.change: encoding=latin-1\n#..file:\n'
+            b'#...meta: length=3\n[]\n']))
+        def parse_garbage(self, data):
+            self.step({'op': 'parse_garbage', 'data': data})
 
         @rule(t=_idx)
         def stats(self, t):
